@@ -59,6 +59,8 @@ def _scenario(draw, tier):
         else:
             ops.append(["exchange", draw(st.integers(0, 2 ** 16))])
     return dict(cfg=cfg, ops=ops,
+                # a second sampler built from the very same input objects (start array, widths, bounds) steps in between
+                sibling=draw(st.integers(0, 5)) == 0,
                 faults=dict(tail_p=draw(st.sampled_from([0.0, 0.0, 0.05])), edge_u_p=draw(st.sampled_from([0.0, 0.05, 0.2]))))
 
 
@@ -727,6 +729,13 @@ def execute(sc):
                         nontrivial=False, shape=kind, sim_seconds=0.0)
         if kind == "hmc":
             momentum_law(V, stats, h)
+        sib = None
+        if sc.get("sibling"):
+            try:
+                sib = lc.Harnessed(cfg, "x1", inputs=h.inputs, seed_group=(cfg["seed"] + 1) & 0x7FFFFFFF)
+                stats["fault_second_sampler_built_from_the_same_input_objects"] += 1
+            except LibRaised:
+                sib = None
         rec = None
         if kind == "hmc" and hasattr(h.chain, "run_leapfrog"):
             rec = LeapfrogRecorder(h.chain)
@@ -816,6 +825,11 @@ def execute(sc):
                 ev = _events(c, h.label, seq0)
                 stats["steps_refined"] += 1
                 twins[:] = [t_ for t_ in twins if lc.twin_step(h, t_)]
+                if sib is not None:
+                    try:
+                        (lc.op_advance(sib, 1) if kind == "ensemble" else lc.op_step(sib))
+                    except (lc.StepExhausted, rctx.Runaway, LibRaised):
+                        sib = None
                 if kind == "ensemble":
                     S, _ = h.rows()
                     X_after = S[-h.n_walkers:]
